@@ -35,13 +35,17 @@ def sizing_case(items, rnd=None):
         elif it["k"] == "fix":
             prog.append(filler(k, it["sz"]))
         else:
-            prog.append(stmt("LDA" if it["base"] == 2 else "LDY", "pcr", label="L%d" % k, expr=ex(sym("L%d" % it["tgt"])), ind=bool(rnd and rnd.random() < 0.5)))
+            c = it.get("c", 0)                   # label+c / label-c (AsmSizing!CO)
+            e = ex(sym("L%d" % it["tgt"])) if c == 0 else ex(sym("L%d" % it["tgt"]), "+" if c > 0 else "-", num(abs(c)))
+            prog.append(stmt("LDA" if it["base"] == 2 else "LDY", "pcr", label="L%d" % k, expr=e, ind=bool(rnd and rnd.random() < 0.5)))
     return Case(prog, tag="sizing")
 
 
 def gates(ctx, thorough):
     r = tlc.check_model("MC_AsmSizing", workers=12, heap="12g")
     ctx.add_model("MC_AsmSizing(n<=3)", r, {"invariants": ["WidthSafe", "Decided", "NoLivelock", "Terminates (liveness, WF)"]})
+    r = tlc.check_model("MC_AsmSizing", "MC_AsmSizingC", workers=12, heap="12g")
+    ctx.add_model("MC_AsmSizingC(n<=3, label+-constant: c in 0, +-4, +-200)", r, {"invariants": ["WidthSafe (displacement + constant fits the chosen width)", "Decided", "NoLivelock"]})
     r = tlc.check_model("MC_Asm", "MC_Asm3" if thorough else "MC_Asm", workers=12, heap="12g", timeout=3000)
     ctx.add_model("MC_Asm3" if thorough else "MC_Asm", r, {"invariants": ["ReachInv", "CertOK", "MustOK", "LayoutInv", "Bounded"]})
     if thorough:
@@ -61,13 +65,15 @@ def sizing_replay(ctx, thorough, rnd):
             r = rnd.random()
             if r < 0.45:
                 sz = rnd.choice([0, 1, 2, 3, 60, 100, 110, 115, 116, 117, 118, 119, 120, 121, 122, 123, 124, 125, 126, 127, 128, 129, 130])
-                items.append({"k": "fix", "sz": sz, "tgt": 0, "base": 0, "mx": sz})
+                items.append({"k": "fix", "sz": sz, "tgt": 0, "base": 0, "mx": sz, "c": 0})
             elif r < 0.5:
-                items.append({"k": "fix", "sz": 3, "tgt": 0, "base": 0, "mx": 2})
+                items.append({"k": "fix", "sz": 3, "tgt": 0, "base": 0, "mx": 2, "c": 0})
             else:
-                items.append({"k": "pcr", "sz": 0, "tgt": rnd.randint(1, n), "base": rnd.choice([2, 2, 3]), "mx": 0})
+                # every third PCR statement names label+-constant: the constant shifts the displacement the decision is about
+                c = rnd.choice([1, 2, 4, 5, 8, 100, 126, 127, 128, 130, 200, 300]) * rnd.choice([1, -1]) if rnd.random() < 0.33 else 0
+                items.append({"k": "pcr", "sz": 0, "tgt": rnd.randint(1, n), "base": rnd.choice([2, 2, 3]), "mx": 0, "c": c})
         if not any(it["k"] == "pcr" for it in items):
-            items[0] = {"k": "pcr", "sz": 0, "tgt": n, "base": 2, "mx": 0}
+            items[0] = {"k": "pcr", "sz": 0, "tgt": n, "base": 2, "mx": 0, "c": 0}
         return items
     recs = recs + [{"prog": rand_items(), "final": []} for _ in range(40000 if thorough else 3000)]
     cases = [sizing_case(r["prog"], rnd) for r in recs]
